@@ -245,10 +245,27 @@ static void op_idx(Cur &c, Out &o)
             for (size_t a = 0; a < T; a++)
                 dpos.push_back((size_t)m(i, a));
     }
+    // the two-index form of a tensor and of its transposed view (layer 0), through the const and the non-const accessor
+    std::vector<size_t> pos2, tpos2;
+    {
+        const tensor::Tensor<double> &ct = t;
+        for (size_t i = 0; i < R; i++)
+            for (size_t j = 0; j < C; j++)
+            {
+                pos2.push_back((size_t)ct(i, j));
+                if ((size_t)t(i, j) != pos2.back())
+                    pos2.back() = (size_t)-1;
+            }
+        for (size_t i = 0; i < C; i++)
+            for (size_t j = 0; j < R; j++)
+                tpos2.push_back((size_t)tt(i, j));
+    }
     o.list("pos", pos);
     o.list("tpos", tpos);
     o.list("mpos", mpos);
     o.list("dpos", dpos);
+    o.list("pos2", pos2);
+    o.list("tpos2", tpos2);
     o.kv("size", std::to_string(t.size()));
 }
 
